@@ -10,13 +10,15 @@ P("C01",
              "c01_exactly_once (handled entries are a permutation of queued-at-start + scheduled, identities distinct), c01_time_monotone, "
              "c01_handled_is_due_first / c01_primary_before_secondary (a secondary at t is handled only when every pending primary, incl. ones "
              "spawned at t, is later), c01_fifo_same_class + c01_seq_is_schedule_order + c01_fifo_schedule_order, c01_run_returns_empty, "
-             "c01_no_panic_invariant_kept, c01_schedule_past_panics. The binary heap is modelled with the code's index arithmetic and proved: "
+             "c01_no_panic_invariant_kept, c01_schedule_past_panics, c01_set_current_time (clock moved after the due event => dispatchNext panics, event dropped). "
+             "c01_scripts_are_programs + c01_scripts_terminate: the scripts of the tie satisfy the hypotheses and end within the model's fuel. "
+             "c01_model_agreement_implies_property links Exec.check_case to Exec.holds_on on well-formed cases. The binary heap is modelled with the code's index arithmetic and proved: "
              "c01_heap_push / c01_heap_pop_min (shape invariant kept, pop returns the (time,seq)-minimum) and c01_heap_refines_sorted (push = sorted "
              "insertion, pop = head, drain = sorted list). The model is compared step-for-step with timing.SerialEngine on every run "
              "(handled event, clock, returned Schedule calls, outcome incl. panic, queued events after via SaveCheckpoint).",
   level_note="Trusted: Coq kernel + vm_compute; the Go harness (script interpreter on the Go side, trace recording through hooks/handlers, checkpoint parsing); "
              "the hand-written model of eventqueue.go/serialengine.go (tied by exact trace equality). holds_on is an independent reference "
-             "priority-queue walk over the observed trace; no link theorem between holds_on and the model is proved.",
+             "priority-queue walk over the observed trace (keyed by the harness' uids); the link theorem covers well-formed cases (no negative offset, clock not set past a queued event).",
   quick_shards=8,
   assumptions=["nextSeq and event times are unbounded naturals (a uint64 wrap needs 2^64 pushes / times near 2^64)",
                "handlers only call Schedule/CurrentTime on the engine (no Pause/SetCurrentTime/nested Run) and every event targets a registered handler",
